@@ -278,3 +278,10 @@ Lemma function_table_covers :
   lookup_fn n_Mod = Some KMod /\ lookup_fn n_Max = Some KMax /\ lookup_fn n_Min = Some KMin /\
   forallb (fun kv => is_some (sympy_fn (snd kv))) allowed_functions = true.
 Proof. repeat split; try (intros f; apply lookup_fn1); vm_compute; reflexivity. Qed.
+
+Lemma function_table_exact :
+  map (fun kv => (fst kv, lookup_fn (fst kv))) allowed_functions =
+  [ ([109; 97; 120]%N, Some KMax); (n_Max, Some KMax); ([109; 105; 110]%N, Some KMin); (n_Min, Some KMin);
+    (n_floor, Some (K1 FFloor)); (n_ceiling, Some (K1 FCeil)); (n_Abs, Some (K1 FAbs)); (n_sign, Some (K1 FSign));
+    (n_sqrt, Some (K1 FSqrt)); ([109; 111; 100]%N, Some KMod); (n_Mod, Some KMod) ].
+Proof. vm_compute. reflexivity. Qed.
